@@ -89,13 +89,13 @@ PROPS = {
                       "BlockBase.match); cpp-directive items carry the exact span of the lines taken",
                 trusted=TRUSTED,
                 explanation="[P] R7, R9a, U3b, U8b, R14 integers; delivery half of free/fixed statements not yet under contract",
-                witnesses=["c14_directive_backslash_at_eof", "c14_directive_with_semicolon", "c14_directive_before_anonymous_main_program"]),
+                witnesses=["c14_directive_backslash_at_eof", "c14_directive_with_semicolon", "c14_directive_before_anonymous_main_program", "c14_directive_between_shared_label_do_statements"]),
     "C14": dict(level="other", enum=["bounded_trees.py --only C14"],
                 claim="a '#' line is recognised exactly when its first non-blank character is '#' (not pyf); the reader's directive branch returns "
                       "one CppDirective item whose span is the physical lines taken, without exception at end of input",
                 trusted=TRUSTED,
                 explanation="[P] R13, R14, F3 (the collector takes every leading comment/include/directive in any order); [B] directive insertion at every boundary, also among retained comments; Cpp_* rules not under contract",
-                witnesses=["c14_include_with_angle_brackets_is_reprinted_with_quotes", "c14_comment_after_ifdef_is_rejected", "c14_directive_between_components_splits_the_component_part", "c14_directive_backslash_at_eof", "c14_directive_with_semicolon", "c14_directive_before_anonymous_main_program"]),
+                witnesses=["c14_include_with_angle_brackets_is_reprinted_with_quotes", "c14_comment_after_ifdef_is_rejected", "c14_directive_between_components_splits_the_component_part", "c14_directive_backslash_at_eof", "c14_directive_with_semicolon", "c14_directive_before_anonymous_main_program", "c14_directive_between_shared_label_do_statements"]),
     "C18": dict(level="other", enum=["bounded_trees.py --only C18", "bounded_harvest.py --only C18"],
                 claim="deep-copy protocol: Base.__getnewargs__ returns (string, None, True) and every class with its own __new__ (Base, Comment, "
                       "Directive; Program delegates) returns a fresh uninitialised instance for those arguments without touching a reader",
